@@ -127,7 +127,7 @@ def phase_C13(tier, seed, st, stats):
     return cov, viol
 
 
-def isa_phase():
+def isa_phase(binary=None):
     """which instructions a call executes when the feature flags say "absent": GODEBUG leaves the processor as it is,
     so an unguarded AVX2 / POPCNT instruction computes the right answer here and is SIGILL on a processor without it"""
     import isaprobe
@@ -135,7 +135,7 @@ def isa_phase():
     lines = isaprobe.probe_cases()
     cov["instruction_set_probe"] = {}
     for godebug, prefixes, what in (("cpu.avx2=off", "v", "AVX/AVX2"), ("cpu.popcnt=off", "popcnt", "POPCNT")):
-        hits, info = isaprobe.probe(os.path.join(BUILD, "bin", "harness"), lines, godebug, prefixes)
+        hits, info = isaprobe.probe(binary or os.path.join(BUILD, "bin", "harness"), lines, godebug, prefixes)
         cov["instruction_set_probe"][godebug] = info
         per_case = {}
         for h in hits:
@@ -166,6 +166,17 @@ def phase_C14(tier, seed, st, stats):
         ("goamd64v3", vlib.build_variant("v3", {"GOAMD64": "v3"}), {}),
         ("goarch386", vlib.build_variant("386", {"GOARCH": "386"}), {}),
     ]
+    # a second toolchain, where one is installed: another runtime (its internal/bytealg is what the linknamed native
+    # Index runs), another compiler; results must not change
+    other_go = "/opt/veriftools/go1.26.8/bin/go"
+    other_bin = None
+    if os.path.exists(other_go):
+        try:
+            other_bin = vlib.build_variant("go1268", {}, gobin=other_go)
+            configs.append(("go1.26.8", other_bin, {}))
+            configs.append(("go1.26.8+avx2off", other_bin, {"GODEBUG": "cpu.avx2=off"}))
+        except Infra:
+            other_bin = None
     viol = []
     cov = {"configurations": {"default": {"cases": len(order), "notes": stats.get("notes")}}}
     for name, binary, env in configs:
@@ -204,6 +215,10 @@ def phase_C14(tier, seed, st, stats):
     c2, v2 = isa_phase()
     cov.update(c2)
     viol.extend(v2)
+    if other_bin:
+        c3, v3 = isa_phase(other_bin)
+        cov["instruction_set_probe_go1.26.8"] = c3["instruction_set_probe"]
+        viol.extend(v3)
     return cov, viol
 
 
